@@ -73,6 +73,28 @@ def decls():
                                ("text", "text", None)):
                 out.append({"kind": "domain", "ddl": "CREATE DOMAIN %s %s%s;" % (q(s, n), AS, bt),
                             "exp": {"schema": s, "domain_name": n, "base_type": tn}, "use": q(s, n), "noas": not AS, "unsized": sz is None})
+    # wave 7 scale sweep (one name form): value / attribute / column lists of every length 5..40, with values that hold a comma; literals in
+    # which a comma is followed by 1..300 word characters as enum value and as schema / database comment
+    n, s = NAMES[0], SCH[1] if len(SCH) > 1 else SCH[0]
+    for k in range(5, 41):
+        vals = ["'%d,v%d'" % (i, i) for i in range(k)] if k % 2 else ["'v%d'" % i for i in range(k)]
+        out.append({"kind": "enum", "ddl": "CREATE TYPE %s AS ENUM (%s);" % (q(s, n), ", ".join(vals)),
+                    "exp": {"schema": s, "type_name": n, "base_type": "ENUM", "properties": {"values": vals}}, "use": q(s, n)})
+        out.append({"kind": "domain", "ddl": "CREATE DOMAIN %s AS ENUM (%s);" % (q(s, n), ", ".join(vals)),
+                    "exp": {"schema": s, "domain_name": n, "base_type": "ENUM", "properties": {"values": vals}}, "use": q(s, n)})
+        attrs = [("at%d" % i, ("varchar(%d)" % (30 + i), "varchar", 30 + i) if i % 2 else ("int", "int", None)) for i in range(k)]
+        body = ", ".join(a + " " + t[0] for a, t in attrs)
+        out.append({"kind": "object", "ddl": "CREATE TYPE %s AS OBJECT (%s);" % (q(s, n), body),
+                    "exp": {"schema": s, "type_name": n, "base_type": "OBJECT", "properties": {"attributes": [{"name": a, "type": t[1], "size": t[2]} for a, t in attrs]}}, "use": q(s, n)})
+        out.append({"kind": "table", "ddl": "CREATE TYPE %s AS TABLE (%s);" % (q(s, n), body), "exp": {"schema": s, "type_name": n},
+                    "tcols": [[a, t[1], t[2]] for a, t in attrs], "use": q(s, n)})
+    for L in list(range(1, 40, 3)) + list(range(40, 301, 1 if False else 7)) + [63, 64, 65, 126, 127, 128, 129, 255, 256, 257]:
+        lit = "'sha512," + ("cf83e1357eefb8bdf1542850d66d8007" * 10)[:L] + "'"
+        out.append({"kind": "enum", "ddl": "CREATE TYPE %s AS ENUM ('a', %s);" % (q(s, n), lit),
+                    "exp": {"schema": s, "type_name": n, "base_type": "ENUM", "properties": {"values": ["'a'", lit]}}, "use": q(s, n)})
+        out.append({"kind": "schema", "ddl": "CREATE SCHEMA %s COMMENT %s;" % (n, lit), "exp": {"schema_name": n, "comment": lit}, "ine_auth": False})
+        out.append({"kind": "schema", "ddl": "CREATE SCHEMA IF NOT EXISTS %s COMMENT = %s;" % (n, lit), "exp": {"schema_name": n, "if_not_exists": True, "comment": lit}, "ine_auth": False})
+        out.append({"kind": "database", "ddl": "CREATE DATABASE %s COMMENT %s;" % (n, lit), "exp": {"database_name": n, "comment": lit}})
     for n in NAMES:
         for ine in ("", "IF NOT EXISTS "):
             for auth in (None, "joe"):
